@@ -49,6 +49,8 @@ pub mod mailbox;
 pub mod node;
 pub mod process;
 pub mod registry;
+#[cfg(edp_verif)]
+pub mod verif;
 
 pub use errors::{Error, Result};
 pub use gen_event::{
